@@ -8,10 +8,11 @@ the "independent of buffer boundaries" half of the property.  Tree level: the st
 -/
 import PdfVerif.Lemmas.LexTokens
 import PdfVerif.Lemmas.StackParser
+import PdfVerif.Lemmas.Roundtrip
 import PdfVerif.Props.C14
 
 namespace PdfVerif.Props.C01
-open PdfVerif PdfVerif.Lexer PdfVerif.Gen.LexTables PdfVerif.StackParser
+open PdfVerif PdfVerif.Lexer PdfVerif.Gen.LexTables PdfVerif.StackParser PdfVerif.Roundtrip
 
 /-! ### integers -/
 
@@ -262,5 +263,76 @@ example : clean (.dict [([75], .arr [.ref 1, .null, .str [115]]), ([78], .null)]
   refine ⟨?_, trivial⟩
   simp only [clean, cleanEntries, cleanList, keysOf, and_self, true_and]
   exact ⟨by decide, by intro k hk; simp at hk; rcases hk with rfl | rfl <;> decide⟩
+
+/-! ### end to end -/
+
+/-- Tokens of a well-formed spelled tree = token sequence of its value (buffer-free automaton). -/
+theorem C01_tokens (t : STree) (hwf : wf t) : tokVals (specLex (bytesOf t)) = ser (valueOf t) := by
+  have hsp : isNONSPC 10 = false := by decide +kernel
+  obtain ⟨st', hm, h⟩ := lex_tree t hwf St.init [10] 0 rfl
+  unfold specLex
+  rw [h]
+  simp [foldBytes, stepByte, stepN, searchClass, hsp, hm, tokVals]
+
+/-- END-TO-END round trip, for trees of ANY depth and every token-level spelling freedom
+    (integer signs / leading zeros, every real form, `#xx` names, all string escapes / octal /
+    continuations / nested parentheses, hex case and inner white space incl. NUL, any run of white
+    space between tokens): reading the bytes of a spelled tree with the tokenizer and the stack
+    parser yields exactly its value, once, with no error.
+    `_partial`: every token that is not self-delimiting is followed by at least one white-space
+    byte (no "minimal delimiters"), no comments between tokens, even hex digit count (open finding),
+    generation number 0, a bare `n g R` is not a top-level value of PDFStreamParser. -/
+theorem C01_roundtrip_partial (t : STree) (hwf : wf t) (hnr : notRef (valueOf t)) :
+    objects (specLex (bytesOf t)) = { results := [norm (valueOf t)] } := by
+  have h := C01_tokens t hwf
+  unfold objects
+  simp only [tokVals] at h
+  rw [h]
+  exact C01_nesting (valueOf t) (clean_tree t hwf) hnr
+
+/-- …at every read-buffer size: the result does not depend on where the buffer boundaries fall. -/
+theorem C01_roundtrip_buffered_partial (b : Nat) (hb : 1 ≤ b) (t : STree) (hwf : wf t) (hnr : notRef (valueOf t)) :
+    (run b (bytesOf t)).map objects = some { results := [norm (valueOf t)] } := by
+  rw [C14.C14_run_eq_spec b hb, Option.map_some, C01_roundtrip_partial t hwf hnr]
+
+/-- Independence of the object's offset: any white-space padding in front (so any absolute position,
+    any alignment with the read buffers) leaves the value read unchanged. -/
+theorem C01_offset_partial (b : Nat) (hb : 1 ≤ b) (pad : Bytes) (hpad : gapAny pad) (t : STree) (hwf : wf t)
+    (hnr : notRef (valueOf t)) :
+    (run b (pad ++ bytesOf t)).map objects = some { results := [norm (valueOf t)] } := by
+  have hsp : isNONSPC 10 = false := by decide +kernel
+  have hu := LexUnit.append (LexUnit.gap pad hpad) (lex_tree t hwf)
+  obtain ⟨st', hm, h⟩ := hu St.init [10] 0 rfl
+  have htok : tokVals (specLex (pad ++ bytesOf t)) = ser (valueOf t) := by
+    unfold specLex
+    rw [h]
+    simp [foldBytes, stepByte, stepN, searchClass, hsp, hm, tokVals]
+  rw [C14.C14_run_eq_spec b hb, Option.map_some]
+  unfold objects
+  simp only [tokVals] at htok
+  rw [htok]
+  exact congrArg some (C01_nesting (valueOf t) (clean_tree t hwf) hnr)
+
+/-- Non-vacuity: `[ -07 /A#20 (a\)b) <4 1> <</K .5 /N null >> 3 00 R ]` with NUL/CR/LF gaps is well formed. -/
+example : wf (.arr [32] [.int [45] [48, 55] [32], .name [.raw 65, .esc 50 48] [0, 13], .str [.raw 97, .esc 41, .raw 98] [],
+      .hex [52, 32, 49] [10],
+      .dict [] [([.raw 75], [32], .real [] [] [53] [32]), ([.raw 78], [9], .null [32])] [32],
+      .ref [51] [32] [48, 48] [32] [32]] []) := by
+  simp only [wf, wfList, wfEntries, gapAny, gapNE, signOK, digitsOK, valueEntries, keysOf, nameValue]
+  refine ⟨by decide, ⟨?_, ?_, ?_, ?_, ?_, ?_, trivial⟩, by simp⟩
+  · refine ⟨by decide, ⟨by decide, by decide, by decide⟩, by decide, by decide⟩
+  · refine ⟨?_, by decide, by decide⟩
+    intro i hi; simp at hi; rcases hi with rfl | rfl <;> simp [NameItem.ok] <;> decide +kernel
+  · refine ⟨?_, by simp [chainOK, StrItem.nextOK], by decide, by simp⟩
+    intro i hi; simp at hi; rcases hi with rfl | rfl | rfl <;> simp [StrItem.ok] <;> decide +kernel
+  · refine ⟨?_, ⟨1, by decide +kernel⟩, by decide, by decide⟩
+    intro c hc; simp at hc; rcases hc with rfl | rfl | rfl <;> decide +kernel
+  · refine ⟨by simp, ⟨?_, ⟨by decide, by decide⟩, ⟨by decide, by decide, by decide, by decide, by decide, by decide⟩,
+        ?_, ⟨by decide, by decide⟩, ⟨by decide, by decide⟩, trivial⟩, by decide, by decide +kernel, ?_⟩
+    · intro i hi; simp at hi; subst hi; simp [NameItem.ok]; decide +kernel
+    · intro i hi; simp at hi; subst hi; simp [NameItem.ok]; decide +kernel
+    · intro k hk; simp [NameItem.value] at hk; rcases hk with rfl | rfl <;> decide +kernel
+  · exact ⟨⟨by decide, by decide, by decide⟩, ⟨by decide, by decide⟩, ⟨by decide, by decide, by decide⟩,
+      by decide +kernel, ⟨by decide, by decide⟩, ⟨by decide, by decide⟩⟩
 
 end PdfVerif.Props.C01
